@@ -21,6 +21,10 @@ RULE = ("seeded random tiny instances (<= 5 computations, <= 3 agents; real grap
         "zeros = pinning, default 0)/routes, symmetric communication loads in 75% of the cases; the real "
         "distribute() runs with CBC substituted for GLPK; the PuLP problem is captured at solve() and evaluated "
         "at every distribution of the instance (<= 81, evenly sampled above); distribution_cost is called on each; "
+        "30% of the cases give agents a route entry for their own name (full route matrix; the route to itself "
+        "stays 0); 25% of the multi-agent cases are preceded, in the same process, by a warm-up distribute() on a "
+        "problem with the same names in which everything is pinned on the first agent (second use must leave no "
+        "trace); harness/corpus/C24.json holds hand-made cases (self-route, pinned footprint above capacity, warm-up); "
         "non-trivial = >= 2 computations and >= 2 agents; distinct = distinct case JSON")
 MODELLED = ("theorems: ILP feasibility at an integral point = the hard rules; objective = distribution_cost "
             "(oilp: when no ordered pair of computations is shared by two links; fgdp: symmetric loads, up to a "
@@ -86,6 +90,15 @@ def gen(rng, n, tier):
                         c["load"].pop(k1, None), c["load"].pop(k2, None)
                         if v is not None:
                             c["load"][k1] = c["load"][k2] = v
+        # full route matrix including the diagonal (yaml `routes: {a1: {a1: 5, a2: 1}}`): the route of
+        # an agent to itself is 0 whatever the table says
+        if rng.random() < 0.3:
+            for a in c["agents"]:
+                if rng.random() < 0.7:
+                    a["routes"][a["name"]] = rng.randint(1, 6)
+        # second use in one process: an earlier distribute() on a problem with the same names, in which
+        # every computation is pinned on the first agent, must leave no trace in this one
+        c["warm"] = len(c["agents"]) >= 2 and rng.random() < 0.25
         cases.append(c)
     return cases
 
@@ -167,12 +180,27 @@ def int_coef(coef, ratio):
     raise ValueError("objective coefficient %r is not %r * integer" % (coef, ratio))
 
 
+def _warm_up(c, cg, cm, cl):
+    """an unrelated earlier call of the same method in this process: same computation and agent names,
+    every computation pinned (zero hosting cost) on the first agent, ample capacity; its outcome is ignored"""
+    from pydcop.dcop.objects import AgentDef
+    wa = [AgentDef(a["name"], capacity=10 ** 6, default_hosting_cost=0 if i == 0 else 1, default_route=1)
+          for i, a in enumerate(c["agents"])]
+    try:
+        with dc.patched(c["method"], dc.Rnd(c)) as mod:
+            mod.distribute(cg, wa, hints=None, computation_memory=cm, communication_load=cl)
+    except Exception:
+        pass
+
+
 def run_impl(c):
     from pydcop.distribution.objects import Distribution
     dcop, cg, agents, hints, cm, cl = dc.build_objects(c)
     view = dc.graph_view(cg)
     rnd = dc.Rnd(c)
     cap = []
+    if c.get("warm"):
+        _warm_up(c, cg, cm, cl)
     try:
         with dc.patched(c["method"], rnd, capture=cap) as mod:
             dist = mod.distribute(cg, agents, hints=None, computation_memory=cm, communication_load=cl)
